@@ -42,33 +42,15 @@ func findIntroducers(p *Prog) introducers {
 // freshVarsOfType lists local variables of fi defined by a composite literal
 // (&T{...} or T{...}) of the named struct type.
 func freshVarsOfType(fi *FuncInfo, typeName string) []*types.Var {
-	info := fi.Pkg.TypesInfo
+	// a variable bound to a fresh object of the type: &T{..}, T{..}, new(T) or `var v T`
 	var out []*types.Var
-	ast.Inspect(fi.Decl.Body, func(n ast.Node) bool {
-		as, ok := n.(*ast.AssignStmt)
-		if !ok || len(as.Lhs) != len(as.Rhs) {
-			return true
+	seen := map[*types.Var]bool{}
+	for _, bo := range builtObjects(fi.Pkg.TypesInfo, fi.Decl.Body, typeName) {
+		if bo.Var != nil && !seen[bo.Var] {
+			seen[bo.Var] = true
+			out = append(out, bo.Var)
 		}
-		for i, r := range as.Rhs {
-			e := ast.Unparen(r)
-			if u, ok := e.(*ast.UnaryExpr); ok && u.Op == token.AND {
-				e = u.X
-			}
-			cl, ok := e.(*ast.CompositeLit)
-			if !ok {
-				continue
-			}
-			if nt := namedOf(info.TypeOf(cl)); nt == nil || nt.Obj().Name() != typeName {
-				continue
-			}
-			if id, ok := as.Lhs[i].(*ast.Ident); ok {
-				if v, ok := info.ObjectOf(id).(*types.Var); ok {
-					out = append(out, v)
-				}
-			}
-		}
-		return true
-	})
+	}
 	return out
 }
 
@@ -86,6 +68,44 @@ func varsHoldingRoot(fi *FuncInfo, d *Deps) map[string]bool {
 		for i, r := range as.Rhs {
 			if isField(info, r, "Scorch", "root") {
 				if id, ok := as.Lhs[i].(*ast.Ident); ok {
+					if v, ok := info.ObjectOf(id).(*types.Var); ok {
+						out[varKeyOf(v)] = true
+					}
+				}
+			}
+		}
+		return true
+	})
+	// locals standing for one segment of such a root: `seg := root.segment[i]`, `for _, seg := range root.segment`
+	isRootSegs := func(e ast.Expr) bool {
+		sel, ok := ast.Unparen(e).(*ast.SelectorExpr)
+		if !ok || !isField(info, sel, "IndexSnapshot", "segment") {
+			return false
+		}
+		if id := baseIdent(sel.X); id != nil {
+			if v, ok := info.ObjectOf(id).(*types.Var); ok && out[varKeyOf(v)] {
+				return true
+			}
+		}
+		return false
+	}
+	ast.Inspect(fi.Decl.Body, func(n ast.Node) bool {
+		switch y := n.(type) {
+		case *ast.AssignStmt:
+			if len(y.Lhs) == len(y.Rhs) {
+				for i, r := range y.Rhs {
+					if ix, ok := ast.Unparen(r).(*ast.IndexExpr); ok && isRootSegs(ix.X) {
+						if id, ok := y.Lhs[i].(*ast.Ident); ok {
+							if v, ok := info.ObjectOf(id).(*types.Var); ok {
+								out[varKeyOf(v)] = true
+							}
+						}
+					}
+				}
+			}
+		case *ast.RangeStmt:
+			if y.Value != nil && isRootSegs(y.X) {
+				if id, ok := y.Value.(*ast.Ident); ok {
 					if v, ok := info.ObjectOf(id).(*types.Var); ok {
 						out[varKeyOf(v)] = true
 					}
